@@ -487,6 +487,11 @@ impl PayloadDecoder {
     pub fn eof() -> PayloadDecoder {
         PayloadDecoder { kind: Kind::Eof }
     }
+
+    /// Returns true if the body is delimited by the end of the connection.
+    pub(crate) fn is_eof_delimited(&self) -> bool {
+        matches!(self.kind, Kind::Eof)
+    }
 }
 
 #[derive(Debug, Clone, PartialEq, Eq)]
